@@ -388,6 +388,7 @@ func report(prop string, runs []*run, known []knownEntry, tier string, seed int,
 			"samples":             samples,
 			"known_findings":      knownHits,
 			"notes":               notes,
+			"predicates_inlined":  append([]string{}, ir.InlineLog...),
 			"exhaustive":          true,
 		},
 		"assumptions": rules.Assumptions(prop),
